@@ -435,3 +435,90 @@ def suite_grid_jobs(tier):
     return jobs
 
 
+
+
+# ---------------------------------------------------------------------------
+# per-property wording for MANIFEST.json
+
+_SWEEP_NOTE = ("Trusted: z3; the proxy arithmetic of vcheck/symx.py (every path is re-run with plain values against "
+               "the real code and the traces compared); the reference executor vcheck/monitor.py (also fed the "
+               "suite's own grid). Costs are exact reals: IEEE rounding is outside; so are n beyond the bounds.")
+_T_SWEEP = "bounded symbolic execution of the real Python code with z3 (symbolic real costs / unbounded unit counts, path-tree closure)"
+LEVELS = {
+    "C01": ("Every action of every stream in the bounds is executed by a reference executor under symbolic execution: for "
+            "each structural tuple the solver partitions the whole 4-dimensional cost space (and the unbounded unit counts) "
+            "into regions and closes the path tree, so executability holds for every cost vector, not for sampled ones.",
+            _SWEEP_NOTE, _T_SWEEP),
+    "C02": ("Phase automaton of the stream (one contiguous forward sweep, one EndForward, Reverse tiling n-1..0 in every "
+            "pass, EndReverse exactly at step 0, StopIteration afterwards) required on every symbolic path of the sweep; "
+            "for SingleMemory/None the number of steps itself is symbolic.", _SWEEP_NOTE, _T_SWEEP),
+    "C03": ("Checkpoint counts per storage after every action against the class-wise budget table, with the budgets "
+            "themselves symbolic where the constructor argument is (a path covers e.g. every ram >= n-1), and in every "
+            "cost region for the Revolve family.", _SWEEP_NOTE, _T_SWEEP),
+    "C04": ("Store contents at every EndReverse (empty for single-adjoint classes, equal to the EndForward contents for "
+            "multi-pass classes, 2-3 passes) on every symbolic path of the sweep.", _SWEEP_NOTE, _T_SWEEP),
+    "C05": ("Kernel lemma decided for a symbolic n up to 10^6: on each path n_advance is affine in n on a whole interval "
+            "and the Bellman equality with the Griewank-Walther closed form is a validity query; plus forward-step totals "
+            "of real Multistage/Revolve streams and the published helper against an independent recurrence.",
+            "Trusted: GW2000 Prop. 1 (the closed form is the optimum over all schedules); z3. Bounded: s <= 12, n as stated.",
+            "z3-backed symbolic execution of n_advance with symbolic n (Bellman lemma) + bounded stream sweep"),
+    "C06": ("Forward-step total of every Mixed stream in the box and the planner's own Bellman equation against a "
+            "first-principles recurrence; s is an unbounded symbolic integer.",
+            "Trusted: Maddison (2024) (recurrence optimal over all schedules); z3. Bounded in n.",
+            "bounded symbolic execution with z3 over (n, s), s unbounded"),
+    "C07": ("For each structural tuple the cost of the real stream is a linear form in (uf, ub, wd, rd); equality with the "
+            "independently transcribed optimum recurrences and the three relational claims are validity queries over the "
+            "whole cost space, so positional mix-ups that cancel at uf=ub, wd=rd cannot hide.",
+            "Trusted: the recurrences of Aupy et al. (2016) / Herrmann & Pallez (2020) are the optimum; z3 (QF_LRA). "
+            "Exact real costs; n, ram, disk bounded as stated.",
+            "z3 QF_LRA: symbolic execution of the real DP and sequence generators on symbolic real costs"),
+    "C08": ("Observers n, r, max_n compared with the reference executor after every action and after finalize, all passes, "
+            "every symbolic path of the sweep.", _SWEEP_NOTE, _T_SWEEP),
+    "C09": ("Permitted number of passes per class, action-for-action equality and executability of repeated passes (3), "
+            "is_exhausted / is_running after every action, persistence of StopIteration.", _SWEEP_NOTE, _T_SWEEP),
+    "C10": ("Histories of next()/finalize(k) with every k an unbounded symbolic integer (TwoLevel: unbounded symbolic "
+            "period): finalize is comparison-only, so each path covers an interval of k and the solver closes the tree over "
+            "all integers; a twin object shows that rejected calls leave no trace.",
+            "Trusted: oracles.fin_spec; z3. Bounded: history length 4/6, one small instance per offline class.",
+            "z3-backed symbolic execution of call histories with unbounded integer arguments"),
+    "C11": ("uses_storage_type queried for all four members before, after every action and after the stream (must not "
+            "raise); storages touched by the stream must be reported, in every cost region.", _SWEEP_NOTE, _T_SWEEP),
+    "C12": ("Working-storage discipline (one step of adjoint data, loads only into empty working storage, no overshoot) "
+            "required by the reference executor on every symbolic path.", _SWEEP_NOTE, _T_SWEEP),
+    "C13": ("Forward phase decided for every period and every binomial_snapshots (both unbounded symbolic, arguments "
+            "affine in the period); per-block forward-step counts of real streams against the binomial closed form; "
+            "n_advance kernel lemma with symbolic n.",
+            "Trusted: GW2000; z3. Blocks bounded in n as stated.",
+            "z3-backed symbolic execution: unbounded period lemma + bounded block sweep + symbolic-n kernel lemma"),
+    "C14": ("All splits of s units built inside one path; labels-only equality, one storage per stack depth, RAM count, "
+            "and minimum disk traffic recomputed from the stream's own access weights.",
+            "Trusted: z3 (enumeration of (s, trajectory) and exhaustion). Bounded in n.",
+            "bounded symbolic execution with z3 (solver-enumerated parameters)"),
+    "C15": ("Solver-enumerated histories (two prior operations over an alphabet; every ordered same-family pair of a "
+            "parameter box) followed by a target stream compared with a fresh-interpreter baseline. Discrete inputs: the "
+            "solver certifies exhaustion of the box, little more.",
+            "Trusted: z3 (exhaustion). Bounded: history length 2, instance lists; threads outside.",
+            "z3-enumerated bounded history exploration of the real code vs fresh-interpreter baselines"),
+    "C16": ("Table entries of mixed_steps_tabulation vs mixed_step_memoization and streams of both code paths, "
+            "bounded-exhaustive box (proxies concretised at the numpy boundary).",
+            "Trusted: z3. numba-compiled semantics outside (njit is the identity here); the tabulated branch is forced by "
+            "rebinding mixed.numba.", "bounded symbolic execution with z3 (concretised at numpy)"),
+    "C17": ("Parameter box around the domain boundary; constructor guards are comparisons so a path covers a range of "
+            "values; valid tuples must complete, invalid ones must fail before any action.",
+            "Trusted: the validity predicate transcribed from the statement; z3. (max_n=1, no RAM unit) for the Revolve "
+            "family: either outcome accepted (documented in DESIGN.md section 6).",
+            "bounded symbolic execution with z3 over a parameter box"),
+    "C18": ("Equality/membership laws decided over all integers for directly constructed actions (all 36 kind pairs); "
+            "repr/len/iter on a box around the special values; every emitted action of the sweep type-checked and "
+            "repr-round-tripped in the concrete twin run.", _SWEEP_NOTE,
+            "z3-backed symbolic execution (unbounded integer fields) + concrete twin checks on emitted actions"),
+    "C19": ("The period loop runs on symbolic costs (ratio by cross-multiplication, QF_LRA): each path is an interval of "
+            "(wd+rd)/uf on which the period must equal the Aupy-Herrmann closed form; for that region every n in the bound "
+            "is generated and its disk write/read positions and per-segment step counts are checked.",
+            "Trusted: Aupy & Herrmann (2017), GW2000; z3. Unwinding assumption on (wd+rd)/uf as stated.",
+            "z3 QF_LRA symbolic execution of the period formula + bounded structural check per cost region"),
+}
+for _pid, (_t, _n, _tech) in LEVELS.items():
+    PROPS[_pid]["level_text"] = _t + " Nothing is claimed outside the stated bounds."
+    PROPS[_pid]["level_note"] = _n
+    PROPS[_pid]["technique_short"] = _tech
